@@ -597,6 +597,8 @@ def _decorator_modes(ctx, RULE):
     other = AConf()
     old_default = F.patch_global(DC, 'BEARTYPE_CONF_DEFAULT', AConf())
     try:
+        _saved_try = getattr(F, 'faithful_try', False)
+        F.faithful_try = True      # a memo lookup written as try / except KeyError must be followed into its handler
         dflt = F.module_env(DC)['BEARTYPE_CONF_DEFAULT']
         for cname, conf in (('default', None), ('other', other)):
             kw = {} if conf is None else {'conf': conf}
@@ -630,6 +632,7 @@ def _decorator_modes(ctx, RULE):
     finally:
         for m_ in memos:
             m_.clear()
+        F.faithful_try = locals().get('_saved_try', False)
         F.patch_global(DC, 'BEARTYPE_CONF_DEFAULT', old_default)
         F.stubs.clear()
         F.stubs.update(saved_stubs)
